@@ -4,7 +4,10 @@
  *   verify <chain> <outcomes>  =>  <status> <res> <err> <trace>
  *   chain    : policies separated by '|' ; policy = L(<list>) or '-' (no rule array)
  *   list     : comma separated elements b<id> | A(<list>) | O(<list>) ; may be empty
- *   outcomes : id:status:res:err separated by ';' or '-' (unlisted ids: KSI_OK / OK / 0) */
+ *   outcomes : id:status:res:err separated by ';' or '-' (unlisted ids: KSI_OK / OK / 0); res 9 = the rule writes no result
+ *   verifyc: a KSI_Policy_clone of the first policy; verifyf: policies made by KSI_Policy_create, chained by KSI_Policy_setFallback;
+ *   verifyg: as verifyf, every fallback first set to a decoy policy (rule 62) and then to the right one;
+ *   verifyh: as verifyg, and the chain is entered through a clone of the first policy taken while the decoy was its fallback */
 #include "common.h"
 #include <ksi/ksi.h>
 #include <ksi/policy.h>
@@ -16,6 +19,7 @@ static int trace[4096]; static int ntrace;
 
 static int tramp(int id, KSI_RuleVerificationResult *r) {
 	if (ntrace < 4096) trace[ntrace++] = id;
+	if (script[id].res == 9) return script[id].status;   /* a rule that reaches no conclusion and writes nothing */
 	r->resultCode = (KSI_VerificationResultCode)script[id].res;
 	r->errorCode = (KSI_VerificationErrorCode)script[id].err;
 	return script[id].status;
@@ -67,7 +71,7 @@ static KSI_Rule *parse_list(void) {
 static void do_line(char *work, const char *orig) {
 	char *w[4]; int n = split_words(work, w, 4);
 	(void)orig;
-	if (n == 3 && (strcmp(w[0], "verify") == 0 || strcmp(w[0], "verifyc") == 0 || strcmp(w[0], "verifyf") == 0)) {
+	if (n == 3 && (strcmp(w[0], "verify") == 0 || strcmp(w[0], "verifyc") == 0 || strcmp(w[0], "verifyf") == 0 || strcmp(w[0], "verifyg") == 0 || strcmp(w[0], "verifyh") == 0)) {
 		/* verifyc: through KSI_Policy_clone of the first policy; verifyf: every policy made by KSI_Policy_create and chained by
 		 * KSI_Policy_setFallback — the public ways to get a policy with a fallback */
 		struct KSI_Policy_st pol[16]; int np = 0, i, res; KSI_Policy *made[16]; KSI_Policy *cl = NULL; const KSI_Policy *start;
@@ -93,15 +97,25 @@ static void do_line(char *work, const char *orig) {
 		memset(made, 0, sizeof(made));
 		start = &pol[0];
 		if (w[0][6] == 'c') { if (KSI_Policy_clone(ctx, &pol[0], &cl) != KSI_OK) { printf("CLONE-FAILED"); return; } start = cl; }
-		else if (w[0][6] == 'f') {
-			int okc = 1;
+		else if (w[0][6] == 'f' || w[0][6] == 'g' || w[0][6] == 'h') {
+			int okc = 1; static const KSI_Rule decoyRules[] = { {KSI_RULE_TYPE_BASIC, (const void *)rule_62}, {KSI_RULE_TYPE_BASIC, NULL} };
 			for (i = 0; i < np && okc; i++) {
 				static const KSI_Rule none[] = { {KSI_RULE_TYPE_BASIC, NULL} };
 				okc = KSI_Policy_create(ctx, pol[i].rules ? pol[i].rules : none, "scripted", &made[i]) == KSI_OK;
 			}
+			start = NULL;
+			if (w[0][6] != 'f' && okc) {
+				okc = KSI_Policy_create(ctx, decoyRules, "decoy", &made[15]) == KSI_OK;
+				for (i = 0; i + 1 < np && okc; i++) okc = KSI_Policy_setFallback(ctx, made[i], made[15]) == KSI_OK;
+				if (w[0][6] == 'h' && okc && np > 1) {
+					okc = KSI_Policy_clone(ctx, made[0], &cl) == KSI_OK;
+					if (okc) okc = KSI_Policy_setFallback(ctx, cl, made[1]) == KSI_OK;
+					start = cl;
+				}
+			}
 			for (i = 0; i + 1 < np && okc; i++) okc = KSI_Policy_setFallback(ctx, made[i], made[i + 1]) == KSI_OK;
-			if (!okc) { printf("CREATE-FAILED"); for (i = 0; i < np; i++) KSI_Policy_free(made[i]); return; }
-			start = made[0];
+			if (!okc) { printf("CREATE-FAILED"); KSI_Policy_free(cl); for (i = 0; i < 16; i++) KSI_Policy_free(made[i]); return; }
+			if (start == NULL) start = made[0];
 		}
 		KSI_VerificationContext_init(&vc, ctx);
 		res = KSI_SignatureVerifier_verify(start, &vc, &result);
